@@ -782,6 +782,27 @@ def make_groups(rng, tier):
                                tag="big"))
     for g in groups:
         g["requests"] = [r for r in g["requests"] if r]
+    # (f) the queue has been FULL - an ingress webhook was refused - and consumers then drained k messages: a valid batch of exactly k items fits
+    #     and is published whole; one more item afterwards does not fit and is refused as a whole
+    for depth_idx in (12, 15):          # fixed configurations: max_depth 6 reject, max_depth 1 reject
+        text, intent = make_config(rng, depth_idx, tier)
+        d = intent["max_depth"]
+        for backend in ("memory", "sqlite"):
+            for k in sorted({1, min(2, d), d}):
+                gen = Gen(rng, intent)
+                setup, existing = [], {}
+                for i in range(d):
+                    sid = "f%02d" % i
+                    setup.append(dict(id=sid, route="/a", target="pull", recv=T0 - 5000 + i, payload_b64=base64.b64encode(b"full-%d" % i).decode(), headers=None, cancel=False))
+                    existing[sid] = "queued"
+                    gen.id_num(sid)
+                setup.append(dict(id="refused", route="/a", target="pull", recv=T0 - 100, payload_b64="", headers=None, cancel=False, may_be_refused=True))
+                for i in range(k):
+                    setup.append(dict(id="f%02d" % i, route="/a", target="pull", recv=0, payload_b64="", headers=None, cancel=False, cancel_only=True))
+                    existing["f%02d" % i] = "canceled"
+                reqs = [rq for rq in (make_request(gen, False, k, existing=existing), make_request(gen, False, 1, existing=existing)) if rq]
+                groups.append(dict(config=text, intent=intent, backend=backend, nobatch=False, now=T0, setup=setup, requests=reqs, gen=gen,
+                                   tag="was-full-drained-%d-of-%d" % (k, d)))
     return groups
 
 
